@@ -192,6 +192,18 @@ def rowform(e):
             if posroot(n[1]) == n[2][2]:
                 r = elem_at(n[1], n[2][1])
                 return rowform(r) if r[0] != "it" else r
+        if n[0] == "sub" and len(n) == 4 and n[3] == 0 and n[2][0] != "ix":
+            # table[i] with table = tuple(f(k) for k in range(N)) and i known non-negative: f(i) (an i >= N raises, it never yields a value)
+            t = n[1]
+            while t[0] == "call" and t[1] in (("g", "tuple"), ("g", "list")) and len(t[2]) == 1:
+                t = t[2][0]
+            i = n[2]
+            nonneg = (is_int_const(i) and i[1] >= 0) or (i[0] == "bin" and i[1] == "%" and is_int_const(i[3]) and i[3][1] > 0)
+            if nonneg and t[0] == "comp" and t[1] in ("list", "gen") and len(t[3]) == 1 and not t[3][0][3]:
+                dom = t[3][0][2]
+                if dom[0] == "call" and dom[1] == ("g", "range") and len(dom[2]) == 1:
+                    lc = t[3][0][1]
+                    return norm(mapx(t[2], lambda m: i if (m[0] in ("it", "ix") and m[1] == lc) else None))
         if n[0] == "sub" and n[1][0] == "tup" and is_const(n[2]) and isinstance(n[2][1], int) and 0 <= n[2][1] < len(n[1][1]):
             return n[1][1][n[2][1]]
         return None
